@@ -260,6 +260,16 @@ impl Transform {
         }
 
         while let Some(template) = iter.next() {
+            // A subtemplate followed by an ellipsis is repeated until one of its ellipsis
+            // variables runs out: it must contain one that is not itself under an inner ellipsis.
+            if template != ellipsis
+                && iter.peek() == Some(&ellipsis)
+                && !Self::has_direct_expanded_variable(template, pattern, ellipsis)
+            {
+                return Err(InvalidSyntax(
+                    "ellipsis must follow a template with an ellipsis variable".into(),
+                ));
+            }
             match template {
                 Cell::Pair(_, _) => Self::check_template_syntax(template, pattern, ellipsis)?,
                 Cell::Symbol(_) => {
@@ -280,6 +290,25 @@ impl Transform {
             }
         }
         Ok(())
+    }
+
+    fn has_direct_expanded_variable(template: &Cell, pattern: &Pattern, ellipsis: &Cell) -> bool {
+        match template {
+            Cell::Symbol(_) => pattern.is_expanded_variable(template),
+            Cell::Pair(_, _) => {
+                let mut iter = template.iter().peekable();
+                while let Some(it) = iter.next() {
+                    if it == ellipsis || iter.peek() == Some(&ellipsis) {
+                        continue;
+                    }
+                    if Self::has_direct_expanded_variable(it, pattern, ellipsis) {
+                        return true;
+                    }
+                }
+                false
+            }
+            _ => false,
+        }
     }
 
     /// Transform
